@@ -54,6 +54,7 @@ def main():
         "bad_colon": "a:b", "bad_bang": "a!b", "bad_bslash": "a\\b",
         "bad_len32": "z" * 32, "bad_len35": "w" * 35,
         "bad_bang_end": "ab!", "bad_colon_start": ":ab",
+        "f1": "fill1", "f2": "fill2", "f3": "fill3", "f4": "fill4", "f5": "fill5", "f6": "fill6", "f7": "fill7", "f8": "fill8",
     }
     emit("A", A)
     # B: cased non-ASCII pairs (Latin-1, Greek, Cyrillic) mixed with ASCII
@@ -64,6 +65,8 @@ def main():
         "y_dia": "ÿa", "Y_DIA": "ŸA",
         "ascii": "abc", "ASCII": "ABC", "z": "z", "omega": "ω", "OMEGA": "Ω",
         "mix1": "aé", "MIX1": "AÉ", "o_sl": "ø", "O_SL": "Ø",
+        # titlecase digraphs: neither lower nor upper case, but they have an upper-case mapping
+        "dz_t": "\u01c5x", "dz_l": "\u01c6x", "dz_u": "\u01c4x", "lj_t": "\u01c8", "lj_u": "\u01c7", "nj_t": "y\u01cb", "nj_l": "y\u01cc",
     }
     emit("B", B)
     # C: caseless: CJK, digits, punctuation, private use / high BMP
@@ -88,6 +91,14 @@ def main():
         "bad_sup33": "\U0001F600" * 16 + "a",
     }
     emit("E", E)
+    # G: ASCII punctuation around the letters: the characters between 'Z' and 'a' ([ ] ^ _ `), '@' below 'A'
+    #    and '{' '~' above 'z' order differently under upper-casing (the CFB rule) and lower-casing
+    G = {
+        "us_abc": "_abc", "wxyz": "wxyz", "Data": "Data", "a_bc": "a_bc", "a_hat": "a^bc", "lbr": "A[bc",
+        "tick": "a`bc", "ABCD": "ABCD", "abcd": "abcd", "abc_": "abc_", "at": "@abc", "brace": "{abc", "tilde": "~abc",
+        "zzzz": "zzzz", "ZZZZ": "ZZZZ", "rbr": "a]bc", "us": "_", "z": "z", "A": "A",
+    }
+    emit("G", G)
     # values for C17
     def q(secs, nanos):
         EPOCH = 116444736000000000
